@@ -24,11 +24,31 @@ Inductive basic :=
 | BUint | BUint8 | BUint16 | BUint32 | BUint64
 | BFloat64.
 
-(* a type is a predeclared basic type or a defined type `type Tn b` *)
-Inductive ty := TBasic (b : basic) | TNamed (n : N) (b : basic).
+(* a type is a predeclared basic type, a defined type `type Tn b` over a basic
+   type, a composite type (pointer, slice, array, map, struct with the fields
+   F0 .. Fn-1 named by their position, function), the empty interface, or a
+   defined type `type Tn u` over a composite type or the empty interface *)
+Inductive ty :=
+| TBasic (b : basic)
+| TNamed (n : N) (b : basic)
+| TPtr (t : ty)
+| TSlice (t : ty)
+| TArray (n : Z) (t : ty)
+| TMap (k v : ty)
+| TStruct (fs : list ty)
+| TFunc (ps rs : list ty)
+| TAny
+| TDef (n : N) (u : ty).
 
+(* the basic type under a type of basic underlying type; composite types have
+   none: the answer BBool is never used for them, every use is guarded by
+   tclass below, and no constant is representable in it *)
 Definition under (t : ty) : basic :=
-  match t with TBasic b => b | TNamed _ b => b end.
+  match t with TBasic b => b | TNamed _ b => b | _ => BBool end.
+
+(* the underlying type *)
+Definition underlying (t : ty) : ty :=
+  match t with TNamed _ b => TBasic b | TDef _ u => u | _ => t end.
 
 Definition basic_eqb (a b : basic) : bool :=
   match a, b with
@@ -38,10 +58,25 @@ Definition basic_eqb (a b : basic) : bool :=
   | _, _ => false
   end.
 
-Definition ty_eqb (a b : ty) : bool :=
+(* type identity *)
+Fixpoint ty_eqb (a b : ty) {struct a} : bool :=
+  let fix go (xs ys : list ty) {struct xs} : bool :=
+    match xs, ys with
+    | [], [] => true
+    | x :: xs', y :: ys' => ty_eqb x y && go xs' ys'
+    | _, _ => false
+    end in
   match a, b with
   | TBasic x, TBasic y => basic_eqb x y
   | TNamed n x, TNamed m y => N.eqb n m && basic_eqb x y
+  | TPtr x, TPtr y => ty_eqb x y
+  | TSlice x, TSlice y => ty_eqb x y
+  | TArray n x, TArray m y => Z.eqb n m && ty_eqb x y
+  | TMap k v, TMap k' v' => ty_eqb k k' && ty_eqb v v'
+  | TStruct xs, TStruct ys => go xs ys
+  | TFunc ps rs, TFunc ps' rs' => go ps ps' && go rs rs'
+  | TAny, TAny => true
+  | TDef n u, TDef m u' => N.eqb n m && ty_eqb u u'
   | _, _ => false
   end.
 
@@ -53,7 +88,7 @@ Fixpoint tys_eqb (a b : list ty) : bool :=
   end.
 
 (* classes of types, also used for the kinds of untyped constants *)
-Inductive bclass := KBool | KStr | KInt | KFloat.
+Inductive bclass := KBool | KStr | KInt | KFloat | KComp | KNil.
 
 Definition class_of (b : basic) : bclass :=
   match b with
@@ -66,9 +101,13 @@ Definition is_numeric (k : bclass) : bool :=
 
 Definition bclass_eqb (a b : bclass) : bool :=
   match a, b with
-  | KBool, KBool | KStr, KStr | KInt, KInt | KFloat, KFloat => true
+  | KBool, KBool | KStr, KStr | KInt, KInt | KFloat, KFloat | KComp, KComp | KNil, KNil => true
   | _, _ => false
   end.
+
+(* the class of a type: that of its basic underlying type, KComp for the others *)
+Definition tclass (t : ty) : bclass :=
+  match t with TBasic b | TNamed _ b => class_of b | _ => KComp end.
 
 (* value range of the integer types: (min, max) *)
 Definition int_range (b : basic) : option (Z * Z) :=
@@ -85,15 +124,17 @@ Definition int_range (b : basic) : option (Z * Z) :=
   end%Z.
 
 (* untyped constant kinds, ordered int < rune < float for numeric ones *)
-Inductive ukind := UBool | UInt | URune | UFloat | UString.
+(* UNil is the kind of the predeclared nil *)
+Inductive ukind := UBool | UInt | URune | UFloat | UString | UNil.
 
 Definition kind_class (k : ukind) : bclass :=
-  match k with UBool => KBool | UString => KStr | UFloat => KFloat | _ => KInt end.
+  match k with UBool => KBool | UString => KStr | UFloat => KFloat | UNil => KNil | _ => KInt end.
 
 Definition default_ty (k : ukind) : ty :=
   TBasic (match k with
           | UBool => BBool | UInt => BInt | URune => BInt32
-          | UFloat => BFloat64 | UString => BString end).
+          | UFloat => BFloat64 | UString => BString
+          | UNil => BBool (* nil has no default type: no rule converts it to bool *) end).
 
 Definition kind_rank (k : ukind) : N :=
   match k with UInt => 1 | URune => 2 | UFloat => 3 | _ => 0 end%N.
@@ -142,24 +183,79 @@ Inductive vty := VT (t : ty) | VU (k : ukind).
 Inductive etype := EVal (v : vty) (c : option cval) | ETuple (ts : list ty).
 
 Definition vty_class (v : vty) : bclass :=
-  match v with VT t => class_of (under t) | VU k => kind_class k end.
+  match v with VT t => tclass t | VU k => kind_class k end.
 
-(* implicit conversion of an untyped operand to the type t *)
-Definition conv_untyped (k : ukind) (c : option cval) (t : ty) : option etype :=
-  match kind_class k, class_of (under t) with
-  | KBool, KBool | KStr, KStr => Some (EVal (VT t) c)
+(* ---- properties of types ---- *)
+
+Definition is_iface (t : ty) : bool := match underlying t with TAny => true | _ => false end.
+
+(* a type is named if it is predeclared or defined (any is an alias of the
+   type literal interface{}) *)
+Definition is_named (t : ty) : bool :=
+  match t with TBasic _ | TNamed _ _ | TDef _ _ => true | _ => false end.
+
+(* nil is a value of pointer, slice, map, function and interface types *)
+Definition nillable (t : ty) : bool :=
+  match underlying t with TPtr _ | TSlice _ | TMap _ _ | TFunc _ _ | TAny => true | _ => false end.
+
+(* comparable types: basic types, pointers, interfaces; structs and arrays
+   of comparable types; not slices, maps, functions *)
+Fixpoint comparable (t : ty) : bool :=
+  match t with
+  | TBasic _ | TNamed _ _ | TPtr _ | TAny => true
+  | TSlice _ | TMap _ _ | TFunc _ _ => false
+  | TArray _ e => comparable e
+  | TStruct fs => (fix all (l : list ty) : bool := match l with [] => true | x :: r => comparable x && all r end) fs
+  | TDef _ u => comparable u
+  end.
+
+(* well formed types: array lengths are not negative, map keys are
+   comparable, a defined type is defined over a type literal *)
+Fixpoint wf_ty (t : ty) : bool :=
+  let fix all (l : list ty) : bool := match l with [] => true | x :: r => wf_ty x && all r end in
+  match t with
+  | TBasic _ | TNamed _ _ | TAny => true
+  | TPtr e | TSlice e => wf_ty e
+  | TArray n e => Z.leb 0 n && wf_ty e
+  | TMap k v => wf_ty k && comparable k && wf_ty v
+  | TStruct fs => all fs
+  | TFunc ps rs => all ps && all rs
+  | TDef _ u => wf_ty u && negb (is_named u)
+  end.
+
+(* a value of type v is assignable to a variable of type t: identical types,
+   identical underlying types when one of them is not named, or t is the
+   empty interface (which every type implements) *)
+Definition assignable_ty (v t : ty) : bool :=
+  ty_eqb v t
+  || (ty_eqb (underlying v) (underlying t) && (negb (is_named v) || negb (is_named t)))
+  || is_iface t.
+
+(* implicit conversion of an untyped operand to the type t; an untyped
+   constant converted to an interface type takes its default type first *)
+Definition conv_basic (k : ukind) (c : option cval) (t : ty) : bool :=
+  match kind_class k, tclass t with
+  | KBool, KBool | KStr, KStr => true
   | (KInt | KFloat), (KInt | KFloat) =>
     match c with
-    | Some (CNum q) => if const_fits q (under t) then Some (EVal (VT t) c) else None
-    | _ => None
+    | Some (CNum q) => const_fits q (under t)
+    | _ => false
     end
-  | _, _ => None
+  | _, _ => false
+  end.
+
+Definition conv_untyped (k : ukind) (c : option cval) (t : ty) : option etype :=
+  match k with
+  | UNil => if nillable t then Some (EVal (VT t) c) else None
+  | _ =>
+    if is_iface t then (if conv_basic k c (default_ty k) then Some (EVal (VT t) c) else None)
+    else if conv_basic k c t then Some (EVal (VT t) c) else None
   end.
 
 (* assignability of an operand to a variable of type t *)
 Definition assign_to (e : etype) (t : ty) : bool :=
   match e with
-  | EVal (VT t') _ => ty_eqb t' t
+  | EVal (VT t') _ => assignable_ty t' t
   | EVal (VU k) c => match conv_untyped k c t with Some _ => true | None => false end
   | ETuple _ => false
   end.
@@ -192,7 +288,7 @@ Definition is_logical (o : binop) : bool := match o with OLAnd | OLOr => true | 
 (* the arithmetic or logical operator o is defined on operands of class k *)
 Definition op_defined (o : binop) (k : bclass) : bool :=
   match o with
-  | OAdd => match k with KBool => false | _ => true end
+  | OAdd => match k with KStr | KInt | KFloat => true | _ => false end
   | OSub | OMul | ODiv => is_numeric k
   | ORem | OAnd | OOr | OXor | OAndNot => bclass_eqb k KInt
   | OLAnd | OLOr => bclass_eqb k KBool
@@ -257,6 +353,45 @@ Definition match_types (a b : etype) : option (vty * option cval * option cval) 
 Definition both_const (c1 c2 : option cval) : bool :=
   match c1, c2 with Some _, Some _ => true | _, _ => false end.
 
+(* operands of a comparison: "the first operand must be assignable to the
+   type of the second operand, or vice versa"; the result is the class in
+   which the comparison takes place and whether both operands are constants *)
+Definition is_nil_operand (e : etype) : bool :=
+  match e with EVal (VU UNil) _ => true | _ => false end.
+
+Definition cmp_compat (a b : etype) : option (option cval * option cval) :=
+  match a, b with
+  | EVal (VT t1) c1, EVal (VT t2) c2 =>
+    if assignable_ty t1 t2 || assignable_ty t2 t1 then Some (c1, c2) else None
+  | _, _ => match match_types a b with Some (_, c1, c2) => Some (c1, c2) | None => None end
+  end.
+
+(* the operand e can be compared with == and != to the operand other: its
+   type is comparable, or it is a slice, map or function value compared to
+   nil; nil is not compared to nil *)
+Definition eq_operand_ok (other : etype) (e : etype) : bool :=
+  match e with
+  | EVal (VT t) _ => comparable t || (is_nil_operand other && nillable t)
+  | EVal (VU k) _ => negb (bclass_eqb (kind_class k) KNil) || negb (is_nil_operand other)
+  | ETuple _ => false
+  end.
+
+Definition is_ordered (k : bclass) : bool :=
+  match k with KInt | KFloat | KStr => true | _ => false end.
+
+Definition ordered_operand (e : etype) : bool :=
+  match e with EVal v _ => is_ordered (vty_class v) | ETuple _ => false end.
+
+Definition tc_compare (o : binop) (a b : etype) : option etype :=
+  match cmp_compat a b with
+  | None => None
+  | Some (c1, c2) =>
+    if (if is_order o then ordered_operand a && ordered_operand b
+        else eq_operand_ok b a && eq_operand_ok a b)
+    then Some (EVal (VU UBool) (if both_const c1 c2 then Some COther else None))
+    else None
+  end.
+
 Definition is_zero_const (c : option cval) : bool :=
   match c with Some (CNum q) => q_is_zero q | _ => false end.
 
@@ -268,9 +403,9 @@ Definition max_shift : Z := 1074.
    as uint; a constant count is not negative *)
 Definition shift_count_ok (vb : vty) (cb : option cval) : bool :=
   match vb, cb with
-  | VT t, None => bclass_eqb (class_of (under t)) KInt
+  | VT t, None => bclass_eqb (tclass t) KInt
   | VT t, Some (CNum q) =>
-    bclass_eqb (class_of (under t)) KInt && match qint q with Some z => Z.leb 0 z | None => false end
+    bclass_eqb (tclass t) KInt && match qint q with Some z => Z.leb 0 z | None => false end
   | VU k, Some (CNum q) => is_numeric (kind_class k) && const_fits q BUint
   | _, _ => false
   end.
@@ -293,11 +428,11 @@ Definition tc_shift (o : binop) (a b : etype) : option etype :=
     if negb (shift_count_ok vb cb) then None else
     match va, ca with
     | VT t, None =>
-      if bclass_eqb (class_of (under t)) KInt then Some (EVal (VT t) None) else None
+      if bclass_eqb (tclass t) KInt then Some (EVal (VT t) None) else None
     | _, Some (CNum q) =>
       (* constant shifted operand: of integer type, or untyped and integral *)
       let left_ok := match va with
-                     | VT t => bclass_eqb (class_of (under t)) KInt
+                     | VT t => bclass_eqb (tclass t) KInt
                      | VU k => is_numeric (kind_class k)
                      end in
       match left_ok, qint q with
@@ -335,14 +470,12 @@ Definition div_zero_b (o : binop) (k : bclass) (c1 c2 : option cval) : bool :=
 
 Definition tc_binary (o : binop) (a b : etype) : option etype :=
   if is_shift o then tc_shift o a b else
+  if is_comparison o then tc_compare o a b else
   match match_types a b with
   | None => None
   | Some (v, c1, c2) =>
     let k := vty_class v in
-    if is_comparison o then
-      if is_order o && bclass_eqb k KBool then None
-      else Some (EVal (VU UBool) (if both_const c1 c2 then Some COther else None))
-    else if negb (op_defined o k) then None
+    if negb (op_defined o k) then None
     else if div_zero_b o k c1 c2 then None
     else
       match c1, c2 with
@@ -399,29 +532,333 @@ Definition tc_unary (o : unop) (a : etype) : option etype :=
   end.
 
 (* conversion T(x) *)
+Definition is_bytes_or_runes (t : ty) : bool :=
+  match underlying t with
+  | TSlice e => match underlying e with TBasic BUint8 | TBasic BInt32 => true | _ => false end
+  | _ => false
+  end.
+
+(* a non constant value of type t2 can be converted to t *)
+Definition convertible (t2 t : ty) : bool :=
+  assignable_ty t2 t
+  || ty_eqb (underlying t2) (underlying t)
+  || match t2, t with TPtr a, TPtr b => ty_eqb (underlying a) (underlying b) | _, _ => false end
+  || (is_numeric (tclass t2) && is_numeric (tclass t))
+  || (bclass_eqb (tclass t2) KInt && bclass_eqb (tclass t) KStr)
+  || (bclass_eqb (tclass t2) KStr && is_bytes_or_runes t)
+  || (is_bytes_or_runes t2 && bclass_eqb (tclass t) KStr).
+
 Definition tc_convert (t : ty) (a : etype) : option etype :=
   match a with
   | EVal v (Some c) =>
-    (* constant conversion *)
-    match vty_class v, class_of (under t), c with
+    (* constant conversion; to an interface or a slice type the result is not a constant *)
+    if is_iface t then
+      match v with
+      | VT _ => Some (EVal (VT t) None)
+      | VU k => if conv_basic k (Some c) (default_ty k) then Some (EVal (VT t) None) else None
+      end
+    else if bclass_eqb (vty_class v) KStr && is_bytes_or_runes t then Some (EVal (VT t) None)
+    else
+    match vty_class v, tclass t, c with
     | (KInt | KFloat), (KInt | KFloat), CNum q =>
       if const_fits q (under t) then Some (EVal (VT t) (Some c)) else None
     | KInt, KStr, CNum _ => Some (EVal (VT t) (Some COther))
     | KStr, KStr, COther | KBool, KBool, COther => Some (EVal (VT t) (Some COther))
     | _, _, _ => None
     end
-  | EVal (VT t') None =>
-    let k' := class_of (under t') in
-    let k := class_of (under t) in
-    if basic_eqb (under t') (under t)
-       || (is_numeric k' && is_numeric k)
-       || (bclass_eqb k' KInt && bclass_eqb k KStr)
-    then Some (EVal (VT t) None) else None
-  | EVal (VU k') None =>
-    if bclass_eqb (kind_class k') KBool && bclass_eqb (class_of (under t)) KBool
+  | EVal (VT t2) None =>
+    if convertible t2 t then Some (EVal (VT t) None) else None
+  | EVal (VU k2) None =>
+    if match kind_class k2 with
+       | KNil => nillable t
+       | KBool => bclass_eqb (tclass t) KBool || is_iface t
+       | _ => false
+       end
     then Some (EVal (VT t) None) else None
   | ETuple _ => None
   end.
+
+(* ---- index, slice, selector, indirection ---- *)
+
+(* an index: of integer type, or an untyped constant representable as int; a
+   constant index is not negative.  Some (Some z): the constant index z *)
+Definition index_ok (i : etype) : option (option Z) :=
+  match i with
+  | EVal (VT t) None => if bclass_eqb (tclass t) KInt then Some None else None
+  | EVal (VT t) (Some (CNum q)) =>
+    if bclass_eqb (tclass t) KInt then
+      match qint q with Some z => if Z.leb 0 z then Some (Some z) else None | None => None end
+    else None
+  | EVal (VU k) (Some (CNum q)) =>
+    if is_numeric (kind_class k) && const_fits q BInt then
+      match qint q with Some z => if Z.leb 0 z then Some (Some z) else None | None => None end
+    else None
+  | _ => None
+  end.
+
+(* a constant index is below (incl: not above) the length n *)
+Definition in_bound (z : option Z) (n : Z) (incl : bool) : bool :=
+  match z with Some z => if incl then Z.leb z n else Z.ltb z n | None => true end.
+
+(* the array type that t is or points to *)
+Definition array_of (t : ty) : option (Z * ty) :=
+  match underlying t with
+  | TArray n e => Some (n, e)
+  | TPtr p => match underlying p with TArray n e => Some (n, e) | _ => None end
+  | _ => None
+  end.
+
+Definition is_string_ty (t : ty) : bool := bclass_eqb (tclass t) KStr.
+
+Definition tc_index (a i : etype) : option etype :=
+  match a with
+  | EVal (VT t) _ =>
+    match underlying t with
+    | TSlice e => match index_ok i with Some _ => Some (EVal (VT e) None) | None => None end
+    | TMap k v => if assign_to i k then Some (EVal (VT v) None) else None
+    | _ =>
+      match array_of t with
+      | Some (n, e) =>
+        match index_ok i with
+        | Some z => if in_bound z n false then Some (EVal (VT e) None) else None
+        | None => None
+        end
+      | None =>
+        if is_string_ty t then
+          match index_ok i with Some _ => Some (EVal (VT (TBasic BUint8)) None) | None => None end
+        else None
+      end
+    end
+  | EVal (VU UString) (Some _) =>
+    match index_ok i with Some _ => Some (EVal (VT (TBasic BUint8)) None) | None => None end
+  | _ => None
+  end.
+
+Definition bounds_ordered (zl zh : option Z) : bool :=
+  match zl, zh with Some l, Some h => Z.leb l h | _, _ => true end.
+
+(* a[lo:hi]; addr: the operand is addressable (needed for an array operand) *)
+Definition tc_slice (addr : bool) (a : etype) (zl zh : option Z) : option etype :=
+  if negb (bounds_ordered zl zh) then None else
+  match a with
+  | EVal (VT t) _ =>
+    match underlying t with
+    | TSlice _ => Some (EVal (VT t) None)
+    | TArray n e =>
+      if addr && in_bound zl n true && in_bound zh n true then Some (EVal (VT (TSlice e)) None) else None
+    | TPtr p =>
+      match underlying p with
+      | TArray n e => if in_bound zl n true && in_bound zh n true then Some (EVal (VT (TSlice e)) None) else None
+      | _ => None
+      end
+    | _ => if is_string_ty t then Some (EVal (VT t) None) else None
+    end
+  | EVal (VU UString) (Some _) => Some (EVal (VT (TBasic BString)) None)
+  | _ => None
+  end.
+
+(* the struct type that t is or points to; true: through a pointer *)
+Definition struct_of (t : ty) : option (list ty * bool) :=
+  match underlying t with
+  | TStruct fs => Some (fs, false)
+  | TPtr p => match underlying p with TStruct fs => Some (fs, true) | _ => None end
+  | _ => None
+  end.
+
+Definition tc_sel (a : etype) (i : N) : option etype :=
+  match a with
+  | EVal (VT t) _ =>
+    match struct_of t with
+    | Some (fs, _) => match nth_error fs (N.to_nat i) with Some f => Some (EVal (VT f) None) | None => None end
+    | None => None
+    end
+  | _ => None
+  end.
+
+Definition tc_deref (a : etype) : option etype :=
+  match a with
+  | EVal (VT t) _ => match underlying t with TPtr p => Some (EVal (VT p) None) | _ => None end
+  | _ => None
+  end.
+
+Definition tc_addr (ok : bool) (a : etype) : option etype :=
+  match a with
+  | EVal (VT t) _ => if ok then Some (EVal (VT (TPtr t)) None) else None
+  | _ => None
+  end.
+
+(* x.(T): x of interface type *)
+Definition tc_assert (a : etype) (t : ty) : option etype :=
+  match a with
+  | EVal (VT t2) _ => if is_iface t2 && wf_ty t then Some (EVal (VT t) None) else None
+  | _ => None
+  end.
+
+(* ---- builtin functions ---- *)
+
+Definition int_val : etype := EVal (VT (TBasic BInt)) None.
+
+(* len(x) and cap(x) (cp = true); nocalls: x contains no function call, which
+   makes the length of an array a constant *)
+Definition tc_len (cp nocalls : bool) (a : etype) : option etype :=
+  match a with
+  | EVal (VT t) _ =>
+    match underlying t with
+    | TSlice _ => Some int_val
+    | TMap _ _ => if cp then None else Some int_val
+    | _ =>
+      match array_of t with
+      | Some (n, _) =>
+        Some (if nocalls then EVal (VT (TBasic BInt)) (Some (CNum (qz n))) else int_val)
+      | None => if is_string_ty t && negb cp then Some int_val else None
+      end
+    end
+  | EVal (VU UString) (Some _) => if cp then None else Some int_val
+  | _ => None
+  end.
+
+Definition all_assign_elem (vs : list etype) (t : ty) : bool := forallb (fun v => assign_to v t) vs.
+
+(* append(s, x1 .. xn) *)
+Definition tc_append (s : etype) (vs : list etype) : option etype :=
+  match s with
+  | EVal (VT t) _ =>
+    match underlying t with
+    | TSlice e => if all_assign_elem vs e then Some (EVal (VT t) None) else None
+    | _ => None
+    end
+  | _ => None
+  end.
+
+(* a size argument of make *)
+Definition size_ok (v : etype) : option (option Z) := index_ok v.
+
+(* make(T, sizes) *)
+Definition tc_make (t : ty) (vs : list etype) : option etype :=
+  if negb (wf_ty t) then None else
+  match underlying t, vs with
+  | TSlice _, [l] => match size_ok l with Some _ => Some (EVal (VT t) None) | None => None end
+  | TSlice _, [l; c] =>
+    match size_ok l, size_ok c with
+    | Some zl, Some zc => if bounds_ordered zl zc then Some (EVal (VT t) None) else None
+    | _, _ => None
+    end
+  | TMap _ _, [] => Some (EVal (VT t) None)
+  | TMap _ _, [l] => match size_ok l with Some _ => Some (EVal (VT t) None) | None => None end
+  | _, _ => None
+  end.
+
+Definition tc_new (t : ty) : option etype :=
+  if wf_ty t then Some (EVal (VT (TPtr t)) None) else None.
+
+(* copy(dst, src): slices of identical element types, or bytes from a string *)
+Definition tc_copy (d s : etype) : option etype :=
+  match d with
+  | EVal (VT td) _ =>
+    match underlying td with
+    | TSlice ed =>
+      match s with
+      | EVal (VT ts) _ =>
+        match underlying ts with
+        | TSlice es => if ty_eqb ed es then Some int_val else None
+        | _ => if is_string_ty ts && ty_eqb (underlying ed) (TBasic BUint8) then Some int_val else None
+        end
+      | EVal (VU UString) (Some _) => if ty_eqb (underlying ed) (TBasic BUint8) then Some int_val else None
+      | _ => None
+      end
+    | _ => None
+    end
+  | _ => None
+  end.
+
+(* delete(m, k) *)
+Definition tc_delete (m k : etype) : option etype :=
+  match m with
+  | EVal (VT t) _ =>
+    match underlying t with
+    | TMap kt _ => if assign_to k kt then Some (ETuple []) else None
+    | _ => None
+    end
+  | _ => None
+  end.
+
+(* ---- composite literals ---- *)
+
+(* an element of a composite literal after its parts are typed: positional,
+   with a constant index or field number, or with a key expression *)
+Inductive item := IPos (v : etype) | IIdx (z : Z) (v : etype) | IKey (k v : etype).
+
+Definition memZ (z : Z) (l : list Z) : bool := existsb (Z.eqb z) l.
+
+(* struct literal with positional values *)
+Fixpoint lit_struct_pos (fs : list ty) (its : list item) : bool :=
+  match fs, its with
+  | [], [] => true
+  | f :: fs', IPos v :: its' => assign_to v f && lit_struct_pos fs' its'
+  | _, _ => false
+  end.
+
+(* struct literal with field names: known fields, no duplicates *)
+Fixpoint lit_struct_key (fs : list ty) (seen : list Z) (its : list item) : bool :=
+  match its with
+  | [] => true
+  | IIdx z v :: its' =>
+    Z.leb 0 z && negb (memZ z seen)
+    && match nth_error fs (Z.to_nat z) with Some f => assign_to v f | None => false end
+    && lit_struct_key fs (z :: seen) its'
+  | _ :: _ => false
+  end.
+
+(* array (bound Some n) or slice literal: cur is the index of the next
+   positional element *)
+Fixpoint lit_elems (bound : option Z) (e : ty) (cur : Z) (seen : list Z) (its : list item) : bool :=
+  match its with
+  | [] => true
+  | IPos v :: its' =>
+    in_bound (Some cur) (match bound with Some n => n | None => cur + 1 end) false
+    && negb (memZ cur seen) && assign_to v e
+    && lit_elems bound e (cur + 1) (cur :: seen) its'
+  | IIdx z v :: its' =>
+    Z.leb 0 z && in_bound (Some z) (match bound with Some n => n | None => z + 1 end) false
+    && negb (memZ z seen) && assign_to v e
+    && lit_elems bound e (z + 1) (z :: seen) its'
+  | IKey _ _ :: _ => false
+  end.
+
+Definition const_num (e : etype) : option Q :=
+  match e with EVal _ (Some (CNum q)) => Some q | _ => None end.
+
+Definition memQ (q : Q) (l : list Q) : bool := existsb (Qeq_bool q) l.
+
+(* map literal: every element has a key; no two equal numeric constant keys *)
+Fixpoint lit_map (k v : ty) (seen : list Q) (its : list item) : bool :=
+  match its with
+  | [] => true
+  | IKey tk tv :: its' =>
+    assign_to tk k && assign_to tv v
+    && match const_num tk with
+       | Some q => negb (memQ q seen) && lit_map k v (q :: seen) its'
+       | None => lit_map k v seen its'
+       end
+  | _ :: _ => false
+  end.
+
+Definition all_pos (its : list item) : bool := forallb (fun i => match i with IPos _ => true | _ => false end) its.
+
+Definition tc_complit (t : ty) (its : list item) : option etype :=
+  if negb (wf_ty t) then None else
+  if match underlying t with
+     | TStruct fs =>
+       match its with
+       | [] => true
+       | _ => if all_pos its then lit_struct_pos fs its else lit_struct_key fs [] its
+       end
+     | TArray n e => lit_elems (Some n) e 0 [] its
+     | TSlice e => lit_elems None e 0 [] its
+     | TMap k v => lit_map k v [] its
+     | _ => false
+     end
+  then Some (EVal (VT t) None) else None.
 
 (* -------------------------------------------------------------- expressions *)
 
@@ -438,7 +875,26 @@ Inductive expr :=
 | EConv (t : ty) (e : expr)
 | ECall (f : ident) (args : exprs)
 | EPkg (p f : N) (args : exprs)     (* call of function f of the imported package p *)
-with exprs := ENone | ECons (e : expr) (r : exprs).
+| ECompLit (t : ty) (els : elts)    (* T{...} *)
+| EIndex (a i : expr)               (* a[i] *)
+| ESliceE (a lo hi : expr)          (* a[lo:hi]; EOmit for an absent bound *)
+| EOmit                             (* only as an absent bound of a slice expression *)
+| EAddr (e : expr)                  (* &e *)
+| EDeref (e : expr)                 (* *e *)
+| ESel (e : expr) (i : N)           (* e.Fi *)
+| ELen (e : expr) | ECap (e : expr)
+| EAppend (s : expr) (args : exprs)
+| EMake (t : ty) (args : exprs)
+| ENew (t : ty)
+| ECopy (d s : expr)
+| EDelete (m k : expr)
+| EAssert (e : expr) (t : ty)       (* e.(T) *)
+with exprs := ENone | ECons (e : expr) (r : exprs)
+with elts :=
+| LNil
+| LPos (e : expr) (r : elts)            (* e *)
+| LIdx (z : Z) (e : expr) (r : elts)    (* z: e  (array, slice)   Fz: e  (struct) *)
+| LKey (k e : expr) (r : elts).         (* k: e  (map) *)
 
 Inductive entity :=
 | EntVar (t : ty)
@@ -485,7 +941,29 @@ Fixpoint args_ok (as_ : list etype) (ps : list ty) : bool :=
 Definition call_result (rs : list ty) : etype :=
   match rs with [t] => EVal (VT t) None | _ => ETuple rs end.
 
-(* G: the imported packages *)
+(* the expression contains no function call (the length of an array it
+   denotes is then a constant) *)
+Fixpoint no_calls (e : expr) : bool :=
+  match e with
+  | ECall _ _ | EPkg _ _ _ | EAppend _ _ | EMake _ _ | ENew _ | ECopy _ _ | EDelete _ _ => false
+  | EUn _ a | EConv _ a | EAddr a | EDeref a | ESel a _ | ELen a | ECap a | EAssert a _ => no_calls a
+  | EBin _ a b | EIndex a b => no_calls a && no_calls b
+  | ESliceE a b c => no_calls a && no_calls b && no_calls c
+  | ECompLit _ els => no_calls_elts els
+  | _ => true
+  end
+with no_calls_elts (l : elts) : bool :=
+  match l with
+  | LNil => true
+  | LPos e r | LIdx _ e r => no_calls e && no_calls_elts r
+  | LKey k e r => no_calls k && no_calls e && no_calls_elts r
+  end.
+
+Definition is_complit (e : expr) : bool := match e with ECompLit _ _ => true | _ => false end.
+
+(* G: the imported packages.  addressable: "a variable, pointer indirection,
+   or slice indexing operation; or a field selector of an addressable struct
+   operand; or an array indexing operation of an addressable array" *)
 Fixpoint tc_expr (G : list N) (E : env) (e : expr) : option etype :=
   match e with
   | ELitB _ => Some (EVal (VU UBool) (Some COther))
@@ -493,13 +971,14 @@ Fixpoint tc_expr (G : list N) (E : env) (e : expr) : option etype :=
   | ELitR z => Some (EVal (VU URune) (Some (CNum (qz z))))
   | ELitF n d => Some (EVal (VU UFloat) (Some (CNum (Qred (n # d)))))
   | ELitS _ => Some (EVal (VU UString) (Some COther))
-  | ENilE => None
+  | ENilE => Some (EVal (VU UNil) None)
   | EVar x =>
     if N.eqb x blank then None else
     match lookup E x with
     | Some (EntVar t) => Some (EVal (VT t) None)
     | Some (EntConst c) => Some c
-    | _ => None
+    | Some (EntFunc ps rs) => Some (EVal (VT (TFunc ps rs)) None)
+    | None => None
     end
   | EUn o a =>
     match tc_expr G E a with Some ta => tc_unary o ta | None => None end
@@ -509,10 +988,16 @@ Fixpoint tc_expr (G : list N) (E : env) (e : expr) : option etype :=
     | _, _ => None
     end
   | EConv t a =>
+    if negb (wf_ty t) then None else
     match tc_expr G E a with Some ta => tc_convert t ta | None => None end
   | ECall f args =>
     match lookup E f, tc_exprs G E args with
     | Some (EntFunc ps rs), Some tas => if args_ok tas ps then Some (call_result rs) else None
+    | Some (EntVar t), Some tas =>
+      match underlying t with
+      | TFunc ps rs => if args_ok tas ps then Some (call_result rs) else None
+      | _ => None
+      end
     | _, _ => None
     end
   | EPkg p f args =>
@@ -521,6 +1006,49 @@ Fixpoint tc_expr (G : list N) (E : env) (e : expr) : option etype :=
     | Some (ps, rs), Some tas => if args_ok tas ps then Some (call_result rs) else None
     | _, _ => None
     end
+  | ECompLit t els =>
+    match tc_elts G E els with Some its => tc_complit t its | None => None end
+  | EIndex a i =>
+    match tc_expr G E a, tc_expr G E i with
+    | Some ta, Some ti => tc_index ta ti
+    | _, _ => None
+    end
+  | ESliceE a lo hi =>
+    match tc_expr G E a,
+          match lo with EOmit => Some None | _ => match tc_expr G E lo with Some t => index_ok t | None => None end end,
+          match hi with EOmit => Some None | _ => match tc_expr G E hi with Some t => index_ok t | None => None end end
+    with
+    | Some ta, Some zl, Some zh => tc_slice (addressable G E a) ta zl zh
+    | _, _, _ => None
+    end
+  | EOmit => None
+  | EAddr a =>
+    match tc_expr G E a with
+    | Some ta => tc_addr (addressable G E a || is_complit a) ta
+    | None => None
+    end
+  | EDeref a => match tc_expr G E a with Some ta => tc_deref ta | None => None end
+  | ESel a i => match tc_expr G E a with Some ta => tc_sel ta i | None => None end
+  | ELen a => match tc_expr G E a with Some ta => tc_len false (no_calls a) ta | None => None end
+  | ECap a => match tc_expr G E a with Some ta => tc_len true (no_calls a) ta | None => None end
+  | EAppend a args =>
+    match tc_expr G E a, tc_exprs G E args with
+    | Some ta, Some tas => tc_append ta tas
+    | _, _ => None
+    end
+  | EMake t args => match tc_exprs G E args with Some tas => tc_make t tas | None => None end
+  | ENew t => tc_new t
+  | ECopy d a =>
+    match tc_expr G E d, tc_expr G E a with
+    | Some td, Some ta => tc_copy td ta
+    | _, _ => None
+    end
+  | EDelete m k =>
+    match tc_expr G E m, tc_expr G E k with
+    | Some tm, Some tk => tc_delete tm tk
+    | _, _ => None
+    end
+  | EAssert a t => match tc_expr G E a with Some ta => tc_assert ta t | None => None end
   end
 with tc_exprs (G : list N) (E : env) (es : exprs) : option (list etype) :=
   match es with
@@ -530,6 +1058,48 @@ with tc_exprs (G : list N) (E : env) (es : exprs) : option (list etype) :=
     | Some t, Some ts => Some (t :: ts)
     | _, _ => None
     end
+  end
+with tc_elts (G : list N) (E : env) (l : elts) : option (list item) :=
+  match l with
+  | LNil => Some []
+  | LPos e r =>
+    match tc_expr G E e, tc_elts G E r with
+    | Some t, Some its => Some (IPos t :: its)
+    | _, _ => None
+    end
+  | LIdx z e r =>
+    match tc_expr G E e, tc_elts G E r with
+    | Some t, Some its => Some (IIdx z t :: its)
+    | _, _ => None
+    end
+  | LKey k e r =>
+    match tc_expr G E k, tc_expr G E e, tc_elts G E r with
+    | Some tk, Some t, Some its => Some (IKey tk t :: its)
+    | _, _, _ => None
+    end
+  end
+with addressable (G : list N) (E : env) (e : expr) : bool :=
+  match e with
+  | EVar x => negb (N.eqb x blank) && match lookup E x with Some (EntVar _) => true | _ => false end
+  | EDeref _ => true
+  | EIndex a _ =>
+    match tc_expr G E a with
+    | Some (EVal (VT t) _) =>
+      match underlying t with
+      | TSlice _ => true
+      | TArray _ _ => addressable G E a
+      | TPtr _ => true
+      | _ => false
+      end
+    | _ => false
+    end
+  | ESel a _ =>
+    match tc_expr G E a with
+    | Some (EVal (VT t) _) =>
+      match underlying t with TPtr _ => true | _ => addressable G E a end
+    | _ => false
+    end
+  | _ => false
   end.
 
 (* --------------------------------------------------------------- statements *)
@@ -550,6 +1120,9 @@ Inductive stmt :=
 | SBreak
 | SContinue
 | SBlock (b : block)
+| SSet (l : expr) (e : expr)                           (* l = e, l an index expression, a selector or an indirection *)
+| SRange (k v : ident) (def : bool) (e : expr) (body : block)
+    (* for k, v := range e (def) or for k, v = range e; a blank v, or k and v, can be absent *)
 with block := BNil | BCons (s : stmt) (r : block)
 with clauses := CNil | CCons (es : exprs) (b : block) (r : clauses).
 
@@ -649,7 +1222,38 @@ Definition is_bool_cond (e : etype) : bool :=
   end.
 
 Definition is_call (e : expr) : bool :=
-  match e with ECall _ _ | EPkg _ _ _ => true | _ => false end.
+  match e with ECall _ _ | EPkg _ _ _ | ECopy _ _ | EDelete _ _ => true | _ => false end.
+
+(* the left side of l = e when it is not an identifier *)
+Definition is_lvalue_form (l : expr) : bool :=
+  match l with EIndex _ _ | ESel _ _ | EDeref _ => true | _ => false end.
+
+Definition is_map_index (G : list N) (E : env) (l : expr) : bool :=
+  match l with
+  | EIndex a _ =>
+    match tc_expr G E a with
+    | Some (EVal (VT t) _) => match underlying t with TMap _ _ => true | _ => false end
+    | _ => false
+    end
+  | _ => false
+  end.
+
+(* the types of the iteration variables of a range clause *)
+Definition range_types (e : etype) : option (ty * ty) :=
+  match e with
+  | EVal (VT t) _ =>
+    match underlying t with
+    | TSlice el => Some (TBasic BInt, el)
+    | TMap k v => Some (k, v)
+    | _ =>
+      match array_of t with
+      | Some (_, el) => Some (TBasic BInt, el)
+      | None => if is_string_ty t then Some (TBasic BInt, TBasic BInt32) else None
+      end
+    end
+  | EVal (VU UString) (Some _) => Some (TBasic BInt, TBasic BInt32)
+  | _ => None
+  end.
 
 Definition is_arith (o : binop) : bool := negb (is_comparison o) && negb (is_logical o).
 
@@ -673,10 +1277,22 @@ Fixpoint fu_expr (e : expr) : list ident :=
   | EConv _ a => fu_expr a
   | ECall f args => f :: fu_exprs args
   | EPkg _ _ args => fu_exprs args
+  | ECompLit _ els => fu_elts els
+  | EIndex a b | ECopy a b | EDelete a b => fu_expr a ++ fu_expr b
+  | ESliceE a b c => fu_expr a ++ fu_expr b ++ fu_expr c
+  | EAddr a | EDeref a | ESel a _ | ELen a | ECap a | EAssert a _ => fu_expr a
+  | EAppend a args => fu_expr a ++ fu_exprs args
+  | EMake _ args => fu_exprs args
   | _ => []
   end
 with fu_exprs (es : exprs) : list ident :=
-  match es with ENone => [] | ECons e r => fu_expr e ++ fu_exprs r end.
+  match es with ENone => [] | ECons e r => fu_expr e ++ fu_exprs r end
+with fu_elts (l : elts) : list ident :=
+  match l with
+  | LNil => []
+  | LPos e r | LIdx _ e r => fu_expr e ++ fu_elts r
+  | LKey k e r => fu_expr k ++ fu_expr e ++ fu_elts r
+  end.
 
 Definition remove_all (ds l : list ident) : list ident :=
   filter (fun x => negb (memN x ds)) l.
@@ -709,6 +1325,9 @@ Fixpoint fu_stmt (s : stmt) : list ident :=
   | SReturn es => fu_exprs es
   | SBreak | SContinue => []
   | SBlock b => fu_block [] b
+  | SSet l e => fu_expr l ++ fu_expr e
+  | SRange k v def e b =>
+    fu_expr e ++ (if def then remove_all [k; v] (fu_block [] b) else fu_block [] b)
   end
 with fu_block (cur : list ident) (b : block) : list ident :=
   match b with
@@ -777,6 +1396,7 @@ Fixpoint tc_stmt (G : list N) (cx : ctx) (E : env) (s : stmt) : option env :=
   match s with
   | SVar xs t es =>
     if negb (nodup_names xs && all_fresh E xs) then None else
+    if negb (match t with Some t => wf_ty t | None => true end) then None else
     match xs with [] => None | _ =>
     match es, t with
     | ENone, Some t => Some (declare_vars E xs (map (fun _ => t) xs))
@@ -807,6 +1427,7 @@ Fixpoint tc_stmt (G : list N) (cx : ctx) (E : env) (s : stmt) : option env :=
       match t with
       | None => Some (declare E x (EntConst (EVal v (Some c))))
       | Some t =>
+        if bclass_eqb (tclass t) KComp then None else   (* the type of a constant is a basic type *)
         match v with
         | VT t' => if ty_eqb t' t then Some (declare E x (EntConst (EVal v (Some c)))) else None
         | VU k => match conv_untyped k (Some c) t with
@@ -855,7 +1476,7 @@ Fixpoint tc_stmt (G : list N) (cx : ctx) (E : env) (s : stmt) : option env :=
   | SIncDec x =>
     if N.eqb x blank then None else
     match lookup E x with
-    | Some (EntVar t) => if is_numeric (class_of (under t)) then Some E else None
+    | Some (EntVar t) => if is_numeric (tclass t) then Some E else None
     | _ => None
     end
   | SExpr e =>
@@ -895,6 +1516,31 @@ Fixpoint tc_stmt (G : list N) (cx : ctx) (E : env) (s : stmt) : option env :=
   | SBreak => if cx_brk cx then Some E else None
   | SContinue => if cx_loop cx then Some E else None
   | SBlock b => if tc_block G cx ([] :: E) b then Some E else None
+  | SSet l e =>
+    if negb (is_lvalue_form l) then None else
+    match tc_expr G E l, tc_expr G E e with
+    | Some (EVal (VT t) _), Some te =>
+      if (addressable G E l || is_map_index G E l) && assign_to te t then Some E else None
+    | _, _ => None
+    end
+  | SRange k v def e b =>
+    match tc_expr G E e with
+    | None => None
+    | Some te =>
+      match range_types te with
+      | None => None
+      | Some (tk, tv) =>
+        if def then
+          if nodup_names [k; v]
+             && forallb (fun x => N.eqb x blank || memN x (fu_block [] b)) [k; v]
+             && tc_block G (in_loop cx) ([] :: declare_vars ([] :: E) [k; v] [tk; tv]) b
+          then Some E else None
+        else
+          if assign_targets E [k; v] [EVal (VT tk) None; EVal (VT tv) None]
+             && tc_block G (in_loop cx) ([] :: E) b
+          then Some E else None
+      end
+    end
   end
 with tc_block (G : list N) (cx : ctx) (E : env) (b : block) : bool :=
   match b with
@@ -956,6 +1602,7 @@ Fixpoint declare_funcs (E : env) (fs : list fdecl) : option env :=
 
 Definition tc_func (G : list N) (E : env) (f : fdecl) : bool :=
   nodup_names (map fst (fn_params f)) &&
+  forallb wf_ty (map snd (fn_params f)) && forallb wf_ty (fn_results f) &&
   let E' := declare_vars ([] :: E) (map fst (fn_params f)) (map snd (fn_params f)) in
   tc_block G {| cx_results := fn_results f; cx_loop := false; cx_brk := false |} E' (fn_body f)
   && match fn_results f with [] => true | _ => term_block (fn_body f) end.
@@ -968,10 +1615,22 @@ Fixpoint pk_expr (e : expr) : list N :=
   | EConv _ a => pk_expr a
   | ECall _ args => pk_exprs args
   | EPkg p _ args => p :: pk_exprs args
+  | ECompLit _ els => pk_elts els
+  | EIndex a b | ECopy a b | EDelete a b => pk_expr a ++ pk_expr b
+  | ESliceE a b c => pk_expr a ++ pk_expr b ++ pk_expr c
+  | EAddr a | EDeref a | ESel a _ | ELen a | ECap a | EAssert a _ => pk_expr a
+  | EAppend a args => pk_expr a ++ pk_exprs args
+  | EMake _ args => pk_exprs args
   | _ => []
   end
 with pk_exprs (es : exprs) : list N :=
-  match es with ENone => [] | ECons e r => pk_expr e ++ pk_exprs r end.
+  match es with ENone => [] | ECons e r => pk_expr e ++ pk_exprs r end
+with pk_elts (l : elts) : list N :=
+  match l with
+  | LNil => []
+  | LPos e r | LIdx _ e r => pk_expr e ++ pk_elts r
+  | LKey k e r => pk_expr k ++ pk_expr e ++ pk_elts r
+  end.
 
 Fixpoint pk_stmt (s : stmt) : list N :=
   match s with
@@ -981,6 +1640,8 @@ Fixpoint pk_stmt (s : stmt) : list N :=
   | SFor c b => pk_expr c ++ pk_block b
   | SLoop b | SBlock b => pk_block b
   | SSwitch t cs d => pk_expr t ++ pk_clauses cs ++ pk_block d
+  | SSet l e => pk_expr l ++ pk_expr e
+  | SRange _ _ _ e b => pk_expr e ++ pk_block b
   | _ => []
   end
 with pk_block (b : block) : list N :=
